@@ -155,7 +155,30 @@ class GetResourceNowait(FnSpec):
             ("generated:returns-table-entry", z3.Implies(viaf, res == F.new.fld("value", newc))),
             ("generated:container-is-generated", z3.Implies(viaf, F.new.fld("is_generated", newc) == vbool(True))),
             ("generated:named-like-the-factory", z3.Implies(viaf, F.new.fld("name", newc) == F.t("name"))),
+        ] + self.product_clauses(F, viaf, res) + self.event_clauses(F, viaf, newc)
+
+    def product_clauses(self, F, viaf, res):
+        # the synchronous API never hands out (or registers) the coroutine of an asynchronous factory
+        return [("generated:product-is-not-a-coroutine", z3.Implies(viaf, z3.Not(iscoroutine_u(res))))]
+
+    def event_clauses(self, F, viaf, newc):
+        """C18: the announcement of a generation carries the types actually registered, the name, the description"""
+        c = F.addr("self")
+        reg = F.eng.reg
+        sig = ctx_sig(F.new, reg, c)
+        sa = Val.a(sig)
+        n_new = z3.Select(F.new.g("g:ev_len"), sa)
+        e = z3.Select(z3.Select(F.new.g("g:ev_item"), sa), n_new - 1)
+        ea = Val.a(e)
+        parts = [
+            ("recorded", n_new >= 1),
+            ("is-a-ResourceEvent", F.new.fld("__class__", ea) == con("ResourceEvent")),
+            ("types-are-the-registered-types", F.new.fld("resource_types", ea) == F.new.fld("types", newc)),
+            ("name", F.new.fld("resource_name", ea) == F.t("name")),
+            ("description", F.new.fld("resource_description", ea) == F.new.fld("description", newc)),
+            ("not-a-factory-event", F.new.fld("is_factory", ea) == vbool(False)),
         ]
+        return [("generated:event:" + n_, z3.Implies(viaf, f)) for (n_, f) in parts]
 
     def local_ensures(self, F):
         """about this activation (not visible to callers): factory call count, what it wrote, what it announced"""
@@ -260,6 +283,25 @@ class GetResourceNowait(FnSpec):
     def __init__(self):
         self.loops = {0: self._loop0}
         self.exit_lemmas = {0: self._exit0}
+
+
+class GetResource(GetResourceNowait):
+    """C03/C04/C06/C13/C18: the coroutine lookup: same contract as get_resource_nowait; additionally awaits an awaitable
+    product before storing it.  A hit, a miss and a wrong-state call neither suspend nor touch anything (pure_when)."""
+    qual = "_context.Context.get_resource"
+    properties = ("C03", "C04", "C06", "C13", "C18", "C02", "C19")
+    suspends = True
+
+    def after_await(self, eng, st_before, st_after, awaited, result, exc, anchor):
+        self.after_opaque_call(eng, st_before, st_after, awaited, [], result, exc, anchor)
+
+    def product_clauses(self, F, viaf, res):
+        return []
+
+    def local_raises(self, F):
+        nd = F.new_st.ghost.get("n_dispatch", 0)
+        return [("registers-nothing", F.new.h("w_dict") == z3.K(I, z3.BoolVal(False))),
+                ("announces-nothing", z3.BoolVal(nd == 0))]
 
 
 # =========================================================================================== get_resources
@@ -436,5 +478,5 @@ def register(reg):
         return [Res(ok, SV(vref(d), DICT(TSTR, ANY))), Res(bad, None, e)]
     reg.ext_calls["typing.get_type_hints"] = get_type_hints
     reg.assumptions_text["A-TYPING"] = "typing.get_type_hints / get_origin / get_args are side-effect free (get_type_hints may raise)"
-    for s in (AddResourceFactory, GetResourceNowait, GetResources, ContextInit):
+    for s in (AddResourceFactory, GetResourceNowait, GetResource, GetResources, ContextInit):
         reg.add(s)
